@@ -75,9 +75,22 @@ structure Pat where
   anchorEnd : Bool
 deriving Repr, DecidableEq, Inhabited
 
-/-- does the element list match a prefix of `s` (and, with `atEnd`, all of it)? backtracking over `star` -/
-def matchEls : List PatEl → List Nat → Bool → Nat → Bool
-  | [], s, atEnd, _ => !atEnd || s.isEmpty
+/-- how a trailing `$` is read -/
+inductive EndMode
+  | none      -- no `$`
+  | python    -- `re`: at the end, or just before a newline that ends the string
+  | ecma      -- ECMA-262 without the `m` flag: at the end only
+deriving DecidableEq, Repr, Inhabited
+
+def atEnd (s : List Nat) : EndMode → Bool
+  | .none => true
+  | .python => s.isEmpty || s == [10]
+  | .ecma => s.isEmpty
+
+/-- does the element list match a prefix of `s` (ending as `e` demands)?  backtracking over `star`;
+    the last argument is fuel for `star` (the string length suffices) -/
+def matchEls : List PatEl → List Nat → EndMode → Nat → Bool
+  | [], s, e, _ => atEnd s e
   | .lit c :: ps, x :: s, e, f => c == x && matchEls ps s e f
   | .cls cs :: ps, x :: s, e, f => cs.contains x && matchEls ps s e f
   | .any :: ps, x :: s, e, f => x != 10 && matchEls ps s e f
@@ -88,13 +101,15 @@ def matchEls : List PatEl → List Nat → Bool → Nat → Bool
      | [] => false)
   | _, _, _, _ => false
 
-/-- `Pattern.match(s)`: the pattern matches starting at offset 0 -/
-def Pat.matchStart (p : Pat) (s : List Nat) : Bool := matchEls p.els s p.anchorEnd (s.length + 1)
+/-- `Pattern.match(s)`: the pattern matches starting at offset 0 (Python semantics) -/
+def Pat.matchStart (p : Pat) (s : List Nat) : Bool :=
+  matchEls p.els s (if p.anchorEnd then .python else .none) (s.length + 1)
 
-/-- `Pattern.search(s)` / JSON Schema `pattern`: matches starting at some offset -/
+/-- JSON Schema `pattern` (ECMA-262 `search`): matches starting at some offset -/
 def Pat.search (p : Pat) (s : List Nat) : Bool :=
-  if p.anchorStart then p.matchStart s
-  else (List.range (s.length + 1)).any (fun i => p.matchStart (s.drop i))
+  let e := if p.anchorEnd then EndMode.ecma else EndMode.none
+  if p.anchorStart then matchEls p.els s e (s.length + 1)
+  else (List.range (s.length + 1)).any (fun i => matchEls p.els (s.drop i) e (s.length + 1))
 
 /-! ### ordering and equality as the predicates see them -/
 
